@@ -373,3 +373,72 @@ func (c *Checker) manyWarriors(M uint64, n int) {
 	}
 	rep.Count("c15:many-warrior-simulators")
 }
+
+// streamFold is an independent last-operation fold of the report stream with
+// read reports included; it is compared with a StateRecorder that records
+// reads (C15: the recorder shows kind and owner of the last reported
+// operation for every address).
+type streamFold struct {
+	M     uint64
+	lens  []int
+	state []g.CoreState
+	owner []int
+}
+
+func newStreamFold(b *Battle) *streamFold {
+	f := &streamFold{M: b.M, state: make([]g.CoreState, b.M), owner: make([]int, b.M)}
+	for _, w := range b.Ws {
+		f.lens = append(f.lens, len(w.Code))
+	}
+	f.clear()
+	return f
+}
+
+func (f *streamFold) clear() {
+	for a := range f.state {
+		f.state[a], f.owner[a] = g.CoreEmpty, -1
+	}
+}
+
+func (f *streamFold) Report(r g.Report) {
+	set := func(a uint64, s g.CoreState) {
+		if a < f.M {
+			f.state[a], f.owner[a] = s, r.WarriorIndex
+		}
+	}
+	switch r.Type {
+	case g.SimReset:
+		f.clear()
+	case g.WarriorSpawn:
+		if r.WarriorIndex >= 0 && r.WarriorIndex < len(f.lens) {
+			for i := 0; i < f.lens[r.WarriorIndex]; i++ {
+				set((uint64(r.Address)+uint64(i))%f.M, g.CoreWritten)
+			}
+		}
+	case g.WarriorTaskPop:
+		set(uint64(r.Address), g.CoreExecuted)
+	case g.WarriorTaskTerminate:
+		set(uint64(r.Address), g.CoreTerminated)
+	case g.WarriorWrite:
+		set(uint64(r.Address), g.CoreWritten)
+	case g.WarriorRead:
+		set(uint64(r.Address), g.CoreRead)
+	case g.WarriorIncrement:
+		set(uint64(r.Address), g.CoreIncremented)
+	case g.WarriorDecrement:
+		set(uint64(r.Address), g.CoreDecremented)
+	}
+}
+
+// compareReadRecorder compares the read-recording StateRecorder with the fold.
+func (c *Checker) compareReadRecorder(b *Battle, sr2 *g.StateRecorder, f *streamFold, cyc int) {
+	for a := uint64(0); a < b.M; a++ {
+		st, own := sr2.GetMemState(g.Address(a))
+		if st != f.state[a] || own != f.owner[a] {
+			c.fail("C15", "recorder-state-with-reads", b, func() string {
+				return fmt.Sprintf("cycle %d cell %d: the read-recording recorder shows (state %d, warrior %d); the last report about the cell gives (state %d, warrior %d)", cyc, a, st, own, f.state[a], f.owner[a])
+			})
+			return
+		}
+	}
+}
